@@ -109,13 +109,15 @@ pub trait Entry: Sized + 'static {
     fn debug_r(_r: &Self::R) -> Option<String> {
         None
     }
+    /// `format!("{:?}", stack)`
+    fn fs_debug<S: IdxC<Idx<Self>>>(fs: &Stack<Self, S>) -> String;
     /// Lower bound for the summed `used` bytes after pushing `vs` (in order) into a fresh region.
     fn min_used(_vs: &[&Self::V]) -> Option<usize> {
         None
     }
     /// Structural expectations on returned indices that the properties state (dense 0,1,2,..
     /// for pairs/columns nodes, equal index for equal consecutive items at collapsing nodes).
-    fn walk(_seq: &[(&Self::V, Idx<Self>)]) -> Result<(), String> {
+    fn walk(_seq: &[(&Self::V, Idx<Self>)], _mode: crate::model::Walk) -> Result<(), String> {
         Ok(())
     }
     /// Number of collapsing / dense nodes `walk` looks at (0 = walk is vacuous).
@@ -262,6 +264,9 @@ macro_rules! entry {
             fn idx_render(a: &$crate::entry::Idx<Self>) -> String {
                 $crate::val::Same::render(a)
             }
+            fn fs_debug<S: $crate::entry::IdxC<$crate::entry::Idx<Self>>>(fs: &$crate::entry::Stack<Self, S>) -> String {
+                format!("{:?}", fs)
+            }
 
             $crate::entry!(@reserve $reserve);
             $crate::entry!(@clone $clone);
@@ -325,8 +330,8 @@ macro_rules! entry {
         fn min_used(vs: &[&Self::V]) -> Option<usize> {
             Some(<Self::R as $crate::model::Model>::min_used(vs))
         }
-        fn walk(seq: &[(&Self::V, $crate::entry::Idx<Self>)]) -> Result<(), String> {
-            <Self::R as $crate::model::Model>::walk(seq)
+        fn walk(seq: &[(&Self::V, $crate::entry::Idx<Self>)], mode: $crate::model::Walk) -> Result<(), String> {
+            <Self::R as $crate::model::Model>::walk(seq, mode)
         }
         fn walk_nodes() -> (usize, usize) {
             <Self::R as $crate::model::Model>::nodes()
